@@ -67,6 +67,13 @@ const MacroSnapRoundtrip = "Macro/snapshot-ack-wait-seek"
 // expired").
 const MacroExhaustedExpires = "Macro/exhausted-then-expired-then-sweep"
 
+// MacroOrphanSnapshot: a topic is deleted while a subscription on it stays
+// live; that subscription is snapshotted AFTERWARDS (DeleteTopic only removes
+// the snapshots that exist at that moment), time passes, the deleted-topics
+// job runs (the topic row must stay, a live subscription hangs on it, and so
+// must the snapshot) and the subscription seeks to the snapshot.
+const MacroOrphanSnapshot = "Macro/delete-topic-snapshot-orphan-prune-seek"
+
 func names(prefix string, n int) []string {
 	out := make([]string, n)
 	for i := range out {
@@ -495,6 +502,31 @@ func (g *Gen) Next() Op {
 			}
 			g.queue = append([]Op{{K: OpSweep, Batch: 1000}}, q...)
 			return Op{K: OpAdvance, D: int64(wait)}
+		case MacroOrphanSnapshot:
+			if len(ls) == 0 {
+				continue
+			}
+			var free []string
+			for _, c := range names("n", 3) {
+				if m.Snaps[c] == nil {
+					free = append(free, c)
+				}
+			}
+			if len(free) == 0 {
+				continue
+			}
+			sname := rapid.SampledFrom(ls).Draw(t, "sub")
+			n := rapid.SampledFrom(free).Draw(t, "snap")
+			wait := rapid.SampledFrom([]time.Duration{time.Second, time.Minute, 2 * time.Hour}).Draw(t, "macro-wait")
+			age := rapid.SampledFrom([]time.Duration{0, time.Second, time.Hour}).Draw(t, "minage")
+			tail := []Op{{K: OpSnapshot, N: n, S: sname}, {K: OpAdvance, D: int64(wait)}, {K: OpJob, Job: "deleted-topics", D: int64(age), Batch: 100}, {K: OpSeekSnap, S: sname, N: n}, {K: OpPull, S: sname, Max: 1000}}
+			tn := m.LiveSub(sname).Topic
+			if tn != nil && tn.Live {
+				g.queue = tail
+				return Op{K: OpDeleteTopic, T: tn.Name}
+			}
+			g.queue = tail[1:]
+			return tail[0]
 		case MacroSnapRoundtrip:
 			if len(ls) == 0 {
 				continue
